@@ -22,9 +22,21 @@ impl Exp {
     }
 }
 
-#[derive(Default, Debug, Clone)]
+#[derive(Debug, Clone)]
 pub struct Trace {
+    /// JSON text of every logged value, in R's (left-to-right) evaluation order
     pub lines: Vec<String>,
+    /// the logged values themselves (the line format is not pinned by any property)
+    pub values: Vec<Value>,
+    /// false once an eager operator (or map / filter over >= 2 elements, or reduce's collection vs
+    /// initial value) had two or more operands that print: the properties fix the order of evaluation
+    /// only for if / ?: / and / or / all / some / none and within reduce's fold
+    pub order_pinned: bool,
+}
+impl Default for Trace {
+    fn default() -> Self {
+        Trace { lines: Vec::new(), values: Vec::new(), order_pinned: true }
+    }
 }
 
 pub const OPS: [&str; 35] = [
@@ -839,8 +851,17 @@ pub fn eval(rule: &Value, data: &Value, tr: &mut Trace) -> Exp {
     // eager: operands left to right; an error in any of them is the result
     let mut vals = Vec::with_capacity(args.len());
     let mut unspec = false;
+    let mut printing_operands = 0;
     for a in &args {
-        match eval(a, data, tr) {
+        let before = tr.lines.len();
+        let r = eval(a, data, tr);
+        if tr.lines.len() > before {
+            printing_operands += 1;
+            if printing_operands >= 2 {
+                tr.order_pinned = false;
+            }
+        }
+        match r {
             Exp::Val(v) => vals.push(v),
             Exp::Err => return Exp::Err,
             Exp::Unspec => {
@@ -890,6 +911,7 @@ pub fn apply_eager(op: &str, vals: &[Value], data: &Value, tr: &mut Trace) -> Ex
         "substr" => substr(vals),
         "log" => {
             tr.lines.push(vals[0].to_string());
+            tr.values.push(vals[0].clone());
             Exp::Val(vals[0].clone())
         }
         "var" => {
@@ -972,8 +994,17 @@ fn eval_lazy(op: &str, args: &[&Value], data: &Value, tr: &mut Trace) -> Exp {
                 return Exp::Unspec;
             }
             let mut out = Vec::new();
+            let mut printing_elements = 0;
             for it in items {
-                let v = need!(eval(args[1], &it, tr));
+                let before = tr.lines.len();
+                let r = eval(args[1], &it, tr);
+                if tr.lines.len() > before {
+                    printing_elements += 1;
+                    if printing_elements >= 2 {
+                        tr.order_pinned = false;
+                    }
+                }
+                let v = need!(r);
                 if op == "map" {
                     out.push(v);
                 } else if truthy(&v) {
@@ -985,8 +1016,13 @@ fn eval_lazy(op: &str, args: &[&Value], data: &Value, tr: &mut Trace) -> Exp {
         "reduce" => {
             // The statement fixes the values, not the order in which the collection and the
             // initial value are evaluated relative to each other; R uses collection first.
+            let b0 = tr.lines.len();
             let items = array_collection(args[0], data, tr);
+            let b1 = tr.lines.len();
             let init = eval(args[2], data, tr);
+            if b1 > b0 && tr.lines.len() > b1 {
+                tr.order_pinned = false;
+            }
             let items = match items {
                 Coll::Items(x) => x,
                 Coll::Err => return Exp::Err,
